@@ -279,6 +279,11 @@ func c11CheckInner(c c11Case) *evid.Fail {
 		if js(d2.exp) != js(d.exp) || d2.rest != d.rest {
 			return evid.Failf("reencode-changes-meaning:"+where, "decode(encode(decode(b))) differs: %s vs %s (input %s)", js(d2.exp), js(d.exp), trunc(c.Body))
 		}
+		if len(b.CustomPayload) > 1 {
+			// a mutation turned the custom payload into a map with several entries: their order on the wire is Go's
+			// map iteration order, so byte-level comparisons of re-encodings say nothing (the meaning was compared above)
+			return nil
+		}
 		var buf2 bytes.Buffer
 		if err := codecs.CustomRawCodec.EncodeBody(hdr, b2, &buf2); err != nil || !bytes.Equal(buf2.Bytes(), re) {
 			return evid.Failf("reencode-not-fixpoint:"+where, "re-encoding is not a fixpoint (input %s)", trunc(c.Body))
